@@ -11,7 +11,7 @@ from vx.symx import SymInt
 symstr.install()
 
 from xdsl.context import Context  # noqa: E402
-from xdsl.dialects import arith, builtin, cf, func, llvm, memref, scf, test  # noqa: E402
+from xdsl.dialects import affine, arith, builtin, cf, func, llvm, memref, scf, tensor, test, vector  # noqa: E402
 from xdsl.dialects.builtin import IntAttr, IntegerAttr, IntegerType, ModuleOp  # noqa: E402
 from xdsl.ir import Attribute, Data, ParametrizedAttribute  # noqa: E402
 from xdsl.parser import Parser  # noqa: E402
@@ -30,7 +30,7 @@ _diagnostic.Diagnostic.raise_exception = _raise_plain
 
 LEVEL = "other"
 EXPLANATION = (
-    "A catalogue of verified modules made of operations of arith, cf, func, memref, scf, builtin and llvm that have a custom (declarative or hand-written) "
+    "A catalogue of verified modules made of operations of arith, cf, func, memref, scf, builtin, llvm, vector, tensor and affine that have a custom (declarative or hand-written) "
     "assembly format - arith (constants of every integer kind, binary ops with overflow flags, comparisons with every "
     "predicate, casts, select, fast-math flags), cf (br/cond_br with block arguments), func (func/call/return, private "
     "declarations), memref (alloc with dynamic sizes and alignment, load/store/dim/cast/subview-free subset), scf (for with "
@@ -43,7 +43,7 @@ EXPLANATION = (
 )
 FUNCTIONS = ["xdsl.irdl.declarative_assembly_format.FormatProgram.print / parse and its directives", "print/parse overrides of arith, cf, func, memref, scf, llvm operations", "Parser.parse_operation (custom branch)", "Printer.print_op"]
 ASSUMPTIONS = ["vx/shim_re.py, vx/symstr.py agree with CPython (vx.selftest)"]
-OUTSIDE = ["dialects other than arith, cf, func, memref, scf, builtin, llvm", "the repository's .mlir corpus (concrete: no symbolic dimension)", "float payloads (repr is C code)", "operations not in the catalogue"]
+OUTSIDE = ["dialects other than arith, cf, func, memref, scf, builtin, llvm, vector, tensor, affine", "the repository's .mlir corpus (concrete: no symbolic dimension)", "float payloads (repr is C code)", "operations not in the catalogue"]
 STUBS = ["Diagnostic.raise_exception re-raises the error without rendering the module into its notes", "output stream: vx.symstr.SymStream", "Printer/Parser name tables: list-backed dictionaries"]
 
 # generic-form modules; integer literals 100..109 in attribute position are markers replaced by symbolic payloads of the attribute's type
@@ -381,6 +381,43 @@ MODULES = {
 %a = "llvm.mlir.addressof"() <{global_name = @y}> : () -> !llvm.ptr
 "test.op"(%a) : (!llvm.ptr) -> ()
 """,
+    "vector": """
+%v, %i, %s = "test.op"() : () -> (vector<4x8x16xf32>, index, f32)
+%w, %base = "test.op"() : () -> (vector<4xf32>, memref<4x4xf32>)
+%0 = "vector.extract"(%v) <{static_position = array<i64: 100>}> : (vector<4x8x16xf32>) -> vector<8x16xf32>
+%1 = "vector.extract"(%v, %i, %i) <{static_position = array<i64: -9223372036854775808, 101, -9223372036854775808>}> : (vector<4x8x16xf32>, index, index) -> f32
+%2 = "vector.extract"(%v) <{static_position = array<i64>}> : (vector<4x8x16xf32>) -> vector<4x8x16xf32>
+%3 = "vector.insert"(%s, %v) <{static_position = array<i64: 3, 102, 3>}> : (f32, vector<4x8x16xf32>) -> vector<4x8x16xf32>
+%4 = "vector.insert"(%s, %v, %i, %i) <{static_position = array<i64: -9223372036854775808, 3, -9223372036854775808>}> : (f32, vector<4x8x16xf32>, index, index) -> vector<4x8x16xf32>
+%5 = "vector.broadcast"(%s) : (f32) -> vector<4xf32>
+%6 = "vector.fma"(%w, %w, %w) : (vector<4xf32>, vector<4xf32>, vector<4xf32>) -> vector<4xf32>
+%7 = "vector.reduction"(%w) <{kind = #vector.kind<add>, fastmath = #arith.fastmath<none>}> : (vector<4xf32>) -> f32
+%8 = "vector.reduction"(%w, %s) <{kind = #vector.kind<add>, fastmath = #arith.fastmath<none>}> : (vector<4xf32>, f32) -> f32
+%9 = "vector.create_mask"(%i) : (index) -> vector<2xi1>
+%10 = "vector.load"(%base, %i, %i) : (memref<4x4xf32>, index, index) -> vector<2xf32>
+"vector.store"(%10, %base, %i, %i) : (vector<2xf32>, memref<4x4xf32>, index, index) -> ()
+"test.op"(%0, %1, %2, %3, %4, %5, %6, %7, %8, %9) : (vector<8x16xf32>, f32, vector<4x8x16xf32>, vector<4x8x16xf32>, vector<4x8x16xf32>, vector<4xf32>, vector<4xf32>, f32, f32, vector<2xi1>) -> ()
+""",
+    "tensor": """
+%t, %i, %j, %f = "test.op"() : () -> (tensor<?x?xf32>, index, index, f32)
+%st = "test.op"() : () -> tensor<8x16xf32>
+%0 = "tensor.extract"(%t, %i, %j) : (tensor<?x?xf32>, index, index) -> f32
+%1 = "tensor.insert"(%f, %t, %i, %j) : (f32, tensor<?x?xf32>, index, index) -> tensor<?x?xf32>
+%2 = "tensor.dim"(%t, %i) : (tensor<?x?xf32>, index) -> index
+%3 = "tensor.empty"() : () -> tensor<4x4xf32>
+%4 = "tensor.empty"(%i) : (index) -> tensor<?x4xf32>
+%5 = "tensor.cast"(%t) : (tensor<?x?xf32>) -> tensor<4x4xf32>
+%6 = "tensor.collapse_shape"(%st) <{reassociation = [[0 : i64, 1 : i64]]}> : (tensor<8x16xf32>) -> tensor<128xf32>
+"test.op"(%0, %1, %2, %3, %4, %5, %6) : (f32, tensor<?x?xf32>, index, tensor<4x4xf32>, tensor<?x4xf32>, tensor<4x4xf32>, tensor<128xf32>) -> ()
+""",
+    "affine": """
+%m, %z, %val = "test.op"() : () -> (memref<2x3xf64>, index, f64)
+"affine.store"(%val, %m) <{map = affine_map<() -> (0, 0)>}> : (f64, memref<2x3xf64>) -> ()
+%l = "affine.load"(%m, %z) <{map = affine_map<()[s0] -> (s0, s0)>}> : (memref<2x3xf64>, index) -> f64
+%n = "affine.load"(%m, %z) <{map = affine_map<()[s0] -> ((((s0 * 7) + 3) + s0), (s0 + 7))>}> : (memref<2x3xf64>, index) -> f64
+%a = "affine.apply"(%z, %z) <{map = affine_map<(d0)[s0] -> (((d0 + (s0 * 42)) + -1))>}> : (index, index) -> index
+"test.op"(%l, %n, %a) : (f64, f64, index) -> ()
+""",
 }
 
 
@@ -560,7 +597,7 @@ def gen_module(ob, src):
 
 def ctx():
     c = Context()
-    for d in (builtin.Builtin, arith.Arith, cf.Cf, func.Func, memref.MemRef, scf.Scf, llvm.LLVM, test.Test, VX):
+    for d in (builtin.Builtin, arith.Arith, cf.Cf, func.Func, memref.MemRef, scf.Scf, llvm.LLVM, vector.Vector, tensor.Tensor, affine.Affine, test.Test, VX):
         c.load_dialect(d)
     return c
 
@@ -893,7 +930,7 @@ def harness(ob, concrete=None):
 SYM_NAMES = {"llvm_func": ("external_func",), "llvm_global": ("y",), "func": ("ext",), "func2": ("pub",), "global": ("g",), "module": ("inner",), "cf": ("f",)}
 # number of integer payload sites per module (see Src)
 FOCUS = {"typed": 3, "dflt_group": 2, "dflt_dict": 2, "dense": 5, "switch": 3, "func2": 2, "arith_const_index_i8": 2, "arith_const_i1": 2, "module": 2, "func_decl_attrs": 2, "global": 2, "arith2": 2,
-         "scf": 2, "subview": 2, "arith_const_i32": 1, "llvm_const": 3, "llvm_mem": 2, "llvm_ldst": 5}
+         "scf": 2, "subview": 2, "arith_const_i32": 1, "llvm_const": 3, "llvm_mem": 2, "llvm_ldst": 5, "vector": 3}
 GENS = ["dflt_bare", "dflt_group", "dflt_dict", "dense", "sym", "str", "typed", "var", "unit", "same"]
 
 
